@@ -17,7 +17,7 @@ ID = 'C10'
 HARNESS = 'c10'
 COQ_IMPORTS = 'From VRP Require Import Base.Tac Model.Validation Spec.Rules.\nFrom Coq Require Import String.'
 MODEL_TARGETS = ['theories/Model/Validation.vo', 'theories/Spec/Rules.vo']
-SIZES = {'quick': 1400, 'thorough': 30000, 'search': 6000}
+SIZES = {'quick': 2400, 'thorough': 30000, 'search': 6000}
 SHARD = 100
 RULE = ('cases: pragmatic problem documents built from a valid base (1-3 jobs of every task kind, 1-2 vehicle types with shifts, '
         'breaks of all four kinds, reloads, resources) with 0-2 targeted deviations next to a rule boundary (touching / overlapping / '
@@ -1127,10 +1127,10 @@ def shrink_candidates(c):
 
 MANIFEST_TEXT = ('Machine-checked proof (Coq, no axioms) over an executable model of the pragmatic validation (all E11xx job rules, all E13xx '
                  'vehicle rules, E1500/1501/1504/1505 as written in validation/*.rs, including the windows(2).any quirk, the eager evaluation of '
-                 'every rule and the parse_time unwraps) and of the unwraps of the reader behind it: outside eight structurally defined known '
+                 'every rule and the parse_time unwraps) and of the unwraps/asserts of the reader behind it: outside ten structurally defined known '
                  'deviation classes, reading never panics, a document is accepted iff it breaks none of the documented rules (written '
                  'independently from the error index page) and the reported codes are exactly the broken rules; each known class has a '
-                 'machine-checked witness (five panics, two wrongly accepted documents, one wrongly reported code). The rule tables are '
+                 'machine-checked witness (eight panics, two wrongly accepted documents, one wrongly reported code). The rule tables are '
                  're-extracted from the Rust sources and the documentation on every run and the completeness theorem is re-proved against them. '
                  'Model and spec are tied to /repo on every run by evaluating them inside Coq (vm_compute) on generated documents and diffing '
                  'with the real ValidationContext::validate and String::read_pragmatic under catch_unwind.')
